@@ -16,6 +16,10 @@ CLAIMED = {
          "Static decision, for every call site of a p9.File method in the server and for all interleavings and connections at once, that the lock set held on every path contains what the method's documented concurrency class requires (read: the node's opMu + renameMu:R; write: opMu:W + renameMu:R; unlink: also the entry's node; global: renameMu:W), that Open's opened-test and opened-store share one region exclusive for the fid, that parent/opened/openFlags are only touched under their documented locks, and that all references on one path share one path node. Right level: mutual exclusion is a property of which locks are held where, visible in the code shape; no schedule needs to be run.",
          "Trusts sync.RWMutex semantics; lock instances are compared structurally after resolving single-assignment local aliases (no pointer analysis available); backends are opaque; calls on a fresh, unpublished File are exempt. Does not decide liveness (C16).",
          "DESIGN.md section 4 C07, section 3 B"),
+ "C09": ("path-fact (guard dominance) analysis over go/cfg with closure inlining: every backend name argument is dominated by a successful checkSafeName on the same expression; exits of checkSafeName classified by the facts that hold there",
+         "Static decision, for every string and every handler at once, that no name reaches a backend File in a name position without a dominating successful checkSafeName on that very expression (or comes from the path tree / a per-element checked list), that checkSafeName returns nil only under name != \"\", no '/', != \".\", != \"..\" and EINVAL otherwise, that walks advance one component per backend call and only from references whose mode (taken from the attributes of the file just walked) is a directory, and that attach reuses that walk. Right level: the quantifier over strings is absorbed by the four comparisons in checkSafeName; the rest is dominance on the CFG.",
+         "Trusts strings.Contains/IndexByte semantics; value identity of names is syntactic (same resolved expression, request fields are not reassigned between check and use - reassignment kills the fact).",
+         "DESIGN.md section 4 C09, section 3 C/G"),
 }
 
 NOT_YET = "check not built yet (work in progress; DESIGN.md section 4 describes the planned static rules)"
